@@ -10,6 +10,7 @@ package main
 
 import (
 	"bytes"
+	"context"
 	"crypto/sha256"
 	"encoding/hex"
 	"flag"
@@ -28,7 +29,9 @@ import (
 	"strconv"
 	"strings"
 	"sync"
+	"sync/atomic"
 	"syscall"
+	"time"
 
 	"gitee.com/xuesongtao/protoc-go-valid/file"
 )
@@ -618,13 +621,26 @@ type injectRun struct {
 	stderr string
 }
 
+// injectHung is set once a run of the tool had to be killed.
+var injectHung int32
+
 func injectCLI(cli string, args ...string) injectRun {
-	cmd := exec.Command(cli, args...)
+	// the tool works on a handful of small files: a run that has not ended after 30 s does not end (e.g. it opened a
+	// named pipe for reading) - that stops every remaining file from being processed and is reported like a crash
+	ctx, cancel := context.WithTimeout(context.Background(), 30*time.Second)
+	defer cancel()
+	cmd := exec.CommandContext(ctx, cli, args...)
 	var eb bytes.Buffer
 	cmd.Stderr = &eb
 	cmd.Stdout = &eb
 	err := cmd.Run()
 	r := injectRun{stderr: eb.String()}
+	if ctx.Err() == context.DeadlineExceeded {
+		r.exit = -1
+		r.panic = "the tool did not terminate within 30 s (killed): " + strings.Join(args, " ")
+		atomic.StoreInt32(&injectHung, 1) // one witness is enough: no further named pipes are laid out
+		return r
+	}
 	if err != nil {
 		if ee, ok := err.(*exec.ExitError); ok {
 			r.exit = ee.ExitCode()
@@ -1124,7 +1140,9 @@ func injectDirsCmd(args []string) error {
 				os.Symlink("no-such-target.go", filepath.Join(dir, "a1_dangling.go"))
 				os.MkdirAll(filepath.Join(dir, "zz_realdir"), 0o755)
 				os.Symlink("zz_realdir", filepath.Join(dir, "a2_dirlink"))
-				syscall.Mkfifo(filepath.Join(dir, "a3_pipe"), 0o644)
+				if atomic.LoadInt32(&injectHung) == 0 {
+					syscall.Mkfifo(filepath.Join(dir, "a3_pipe"), 0o644)
+				}
 				for _, n := range []string{"a0_dangling", "a1_dangling.go", "a2_dirlink", "a3_pipe"} {
 					specials[n] = injectSpecialState(filepath.Join(dir, n))
 				}
